@@ -32,11 +32,13 @@ def must_see(tier):
         m['c:%s:n>800:extremes' % fam] = 1
     for impl in ('c', 'py'):
         for k in ('int', 'Set', 'TreeSet', 'Bucket', 'BTree', 'list',
-                  'generator', 'range', 'other-impl', 'getitem-seq'):
+                  'generator', 'range', 'other-impl', 'getitem-seq',
+                  'keys-view', 'values-view', 'foreign', 'subclass'):
             m['%s:operand:%s' % (impl, k)] = 5
         m[impl + ':dups-across-operands'] = 10
         m[impl + ':ghost-operands'] = 20
         m[impl + ':lazy-outer-sequence'] = 10
+        m[impl + ':foreign-operand-with-unusable-key'] = 20
     m['py:n>=4000'] = 10
     return m
 
@@ -186,8 +188,32 @@ def split_operands(fam, impl, rng, keys, rec):
             continue
         kind = rng.choice(['Set', 'TreeSet', 'Bucket', 'BTree', 'list',
                            'tuple', 'generator', 'pyset', 'range',
-                           'other-impl', 'Set', 'list', 'getitem-seq'])
-        if kind in setops.CONTAINER_KINDS:
+                           'other-impl', 'Set', 'list', 'getitem-seq',
+                           'keys-view', 'values-view', 'foreign',
+                           'subclass'])
+        if kind in ('keys-view', 'values-view'):
+            # the lazy keys() of a tree; values() of a mapping whose VALUES
+            # are our keys (in key order of the mapping: neither sorted nor
+            # necessarily duplicate-free as a sequence)
+            obj, _, _ = setops.make_iterable(kind, set(part), rng, fam, impl)
+            ops.append(obj)
+        elif kind == 'foreign':
+            # a container of ANOTHER family (either implementation) that
+            # happens to hold keys of ours
+            of = families.get(rng.choice(['OO', 'LL' if fam.kc in 'IU'
+                                          else 'OO', 'OI']))
+            if of.kc != 'O' and not all(of.key_ok(k) for k in part):
+                of = families.get('OO')
+            c, _ = setops.make_container(
+                of, rng.choice(setops.CONTAINER_KINDS),
+                rng.choice(['c', 'py']), set(part), of.values(rng), rng)
+            ops.append(c)
+        elif kind == 'subclass':
+            c, _ = setops.make_container(
+                fam, rng.choice(setops.CONTAINER_KINDS), impl, set(part),
+                vals, rng, subclass=True)
+            ops.append(c)
+        elif kind in setops.CONTAINER_KINDS:
             lo_, hi_ = INT_RANGES[fam.kc]
             pool = [rng.randint(lo_, hi_) for _ in range(rng.choice(
                 [0, 5, 40]))] + [min(hi_, k + 1) for k in part[:10]]
@@ -269,6 +295,43 @@ def run_shard(spec, rec):
                 desc['outer'] = 'lazy'
             except Exception:
                 pass
+        if i % 15 == 7:
+            # an operand of ANOTHER family holding a key that is not one of
+            # ours: it has to be refused (TypeError), whichever
+            # implementation the operand is written in
+            lo_, hi_ = INT_RANGES[fam.kc]
+            badkey = rng.choice(['a', (1,), hi_ + 1 + rng.randint(0, 5),
+                                 lo_ - 1 - rng.randint(0, 5), 2 ** 70])
+            if isinstance(badkey, int) and -2 ** 63 <= badkey < 2 ** 63 \
+                    and fam.kc in 'IU':
+                of = families.get('LL')
+            else:
+                of = families.get('OO')
+            okind = rng.choice(setops.CONTAINER_KINDS)
+            # (object keys must be orderable among themselves)
+            good = [k for k in want[:3] if of.key_ok(k)] \
+                if isinstance(badkey, int) else []
+            fc = of.cls(okind, rng.choice(['c', 'py']))()
+            for k in good + [badkey]:
+                if okind in ('Bucket', 'BTree'):
+                    fc[k] = 0
+                else:
+                    fc.add(k)
+            rec.evaluations += 1
+            rec.ev(impl + ':foreign-operand-with-unusable-key')
+            try:
+                r_ = fn([fc] if rng.random() < .5 else [list(want[:2]), fc])
+                rec.violation('unusable-key-of-foreign-operand-accepted',
+                              operand=type(fc).__name__, key=brief(badkey),
+                              result=brief(list(r_), 120), **desc)
+            except TypeError:
+                pass
+            except Exception as e:
+                rec.violation('unusable-key-of-foreign-operand-accepted',
+                              operand=type(fc).__name__, key=brief(badkey),
+                              raised='%s: %s' % (type(e).__name__, e),
+                              **desc)
+            del fc
         try:
             r = fn(ops)
         except Exception as e:
